@@ -57,6 +57,11 @@ def gen_opts(rng, n_docs, multi=True):
         o["cache_gt_than"] = rng.choice([0, 1, 5, 25, 1000])
     if rng.random() < 0.3:
         o["autowarm"] = rng.random() < 0.5
+    # "all SearchArray.index options": a data directory, and truncate=True (a no-op for documents within the limit)
+    if rng.random() < 0.12:
+        o["data_dir"] = True
+    if rng.random() < 0.12:
+        o["truncate"] = True
     return o
 
 
@@ -86,6 +91,9 @@ def build_array(case):
     if "data_dir" in opts:
         import tempfile
         opts["data_dir"] = tempfile.mkdtemp(prefix="sa-verif-dd-", dir="/var/tmp")
+        import atexit
+        import shutil
+        atexit.register(shutil.rmtree, opts["data_dir"], True)       # removed when the worker exits
     if tokz == "ws":
         strs = [(" ".join(tok_name(t) for t in d) if d is not None else (None if i % 2 else float("nan")))
                 for i, d in enumerate(docs)]
